@@ -418,7 +418,7 @@ def library(draw, opts=None):
 
 def foreign_nonportable(classes, b, scope_chain):
     """Base class b lives in a scope that is not an enclosing scope of the
-    derived class, and some element inside b names a class that is only
+    derived class, and some NESTED class of b names a class that is only
     visible from b's own scope."""
     by = {k["id"]: k for k in classes}
     if by[b]["parent"] is None or by[b]["parent"] in scope_chain:
@@ -431,16 +431,21 @@ def foreign_nonportable(classes, b, scope_chain):
             x = by[x]["parent"]
         return False
 
-    def refs(k):
-        out = [e["cls"] for e in by[k].get("extends", [])] + [c["cls"] for c in by[k].get("comps", [])]
+    def refs(k, direct):
+        # the base's own components are resolved in the base's scope (repaired); what is still
+        # looked up from the derived class are the names used INSIDE the base's nested classes
+        out = []
+        if not direct:
+            # (extends clauses of a nested class are still resolved through its lexical parent)
+            out += [c["cls"] for c in by[k].get("comps", [])]
         for ch in classes:
             if ch["parent"] == k:
-                out += refs(ch["id"])
+                out += refs(ch["id"], False)
         for e in by[k].get("extends", []):
-            out += refs(e["cls"])
+            out += refs(e["cls"], direct)
         return out
 
-    for r in refs(b):
+    for r in refs(b, True):
         if r in BUILTIN or by[r]["parent"] is None or inside(r, b):
             continue
         return True
